@@ -52,6 +52,9 @@ M('M28', 'src/xdoctest/doctest_example.py',
                     continue""", ['C02'], 'execution continues after a got/want mismatch')
 M('K4', 'src/xdoctest/checker.py', "                got = repr(got_eval)\n            except Exception as ex:",
   "                got = str(got_eval)\n            except Exception as ex:", ['C02', 'C20'], 'str instead of repr of the value')
+M('R4', 'src/xdoctest/runner.py', """                if gather_all and example.is_disabled():
+                    continue""", """                if gather_all and example.is_disabled() and command == 'dump':
+                    continue""", ['C10', 'C15'], "force-disabled doctests run by 'all'")
 M('E2', 'src/xdoctest/doctest_example.py',
   """                if not part.has_any_code():
                     if DEBUG:
@@ -135,8 +138,8 @@ M('E4', 'src/xdoctest/doctest_example.py',
   """                            found_lineno = sub_tb.tb_lineno""", ['C08', 'C09'], 'innermost instead of outermost doctest frame')
 M('L1', 'src/xdoctest/core.py', "body_lineno = label_lineno + 1", "body_lineno = label_lineno", ['C08'],
   'google block offset without the +1')
-M('R1', 'src/xdoctest/runner.py', None, None, ['C10', 'C15'], 'skipped counted as passed')
-M('R2', 'src/xdoctest/__main__.py', None, None, ['C10', 'C15'], 'exit status from the wrong counter')
+M('R1', 'src/xdoctest/runner.py', "    n_passed = sum(s['passed'] for s in summaries)", "    n_passed = sum(s['passed'] or s['skipped'] for s in summaries)", ['C10'], 'skipped counted as passed')
+M('R2', 'src/xdoctest/__main__.py', "    n_failed = run_summary.get('n_failed', 0)", "    n_failed = run_summary.get('n_total', 0) - run_summary.get('n_passed', 0)", ['C10', 'C15'], 'exit status from total - passed (skipped doctests fail the run)')
 M('E7', 'src/xdoctest/doctest_example.py', "        self.global_namespace.clear()\n", "        pass\n", ['C11'],
   'namespace not cleared after the run')
 M('E14', 'src/xdoctest/doctest_example.py', "        self._unmatched_stdout = []\n\n        self._skipped_parts = []",
